@@ -182,31 +182,39 @@ func (d *vDec) params(ver byte) vParams {
 
 // ---- harness input builders ----
 
+// vValues: the bound values as the application gives them (a []byte, nil, UnsetValue, each optionally wrapped
+// in NamedValue) are turned into queryValues by the driver's own marshalQueryValue, exactly as
+// Conn.executeQuery / executeBatch do; the logical request (want) is what the application asked for.
 func vValues(n int, named bool) ([]queryValues, []vVal) {
 	var qv []queryValues
 	var want []vVal
+	blob := NativeType{proto: 4, typ: TypeBlob}
 	for i := 0; i < n; i++ {
 		var q queryValues
 		var w vVal
-		if named {
-			q.name = vStringN("name", 1)
-			w.name = q.name
-		}
+		var bound interface{}
 		switch vChoose("valkind", 3) {
 		case 0:
-			q.value = vBytes("val", vBound("V"))
-			_ = vConcrete(len(q.value))
-			if q.value == nil {
-				q.value = []byte{}
+			val := vBytes("val", vBound("V"))
+			_ = vConcrete(len(val))
+			if val == nil {
+				val = []byte{}
 			}
-			w.kind, w.data = vkBytes, q.value
+			bound = val
+			w.kind, w.data = vkBytes, val
 		case 1:
-			q.value = nil
+			bound = nil
 			w.kind = vkNull
 		default:
-			q.isUnset = true
+			bound = UnsetValue
 			w.kind = vkUnset
 		}
+		if named {
+			w.name = vStringN("name", 1)
+			bound = NamedValue(w.name, bound)
+		}
+		err := marshalQueryValue(blob, bound, &q)
+		vAssert(err == nil, "C03/values/bound-value-is-marshalled")
 		qv = append(qv, q)
 		want = append(want, w)
 	}
